@@ -43,7 +43,7 @@ def strategy(draw):
         files.append(dict(fs=draw(gen.choice(FS)), duration=draw(st.integers(145, 215)), seed=draw(gen.seeds32)))
     if nfiles >= 2 and draw(st.booleans()):
         files[0]["fs"], files[1]["fs"] = 500, 100       # the longer stand-alone FFT first
-    if draw(gen.chance(3)):
+    if draw(gen.chance(2)):
         # mixed formats in one batch: text formats (SAF, MiniShark) next to miniSEED, incl. a SAF file converted from a
         # MiniShark recording that keeps the original header as '#' comment lines and tab-separated columns
         for fdesc in files:
@@ -51,6 +51,10 @@ def strategy(draw):
             if fdesc["fmt"] != "mseed":
                 fdesc["fs"] = draw(st.sampled_from([100, 200]))
                 fdesc["north_rot"] = draw(st.sampled_from([0, 30, 75]))
+        if nfiles >= 2 and draw(st.booleans()):
+            # a file that two readers accept, right after a genuine file of the other reader's format
+            files[0].update(fmt="minishark", fs=draw(st.sampled_from([100, 200])), north_rot=0)
+            files[1].update(fmt="saf-from-minishark", fs=draw(st.sampled_from([100, 200])), north_rot=draw(st.sampled_from([30, 75])))
     method = draw(gen.choice(["geometric_mean", "squared_average", "single_azimuth", "azimuthal", "diffuse_field", "maximum_horizontal_value"]))
     return dict(files=files, nproc=draw(gen.choice([1, 2, 1, 3, 1, 5, 2, 1])), method=method,
                 fft=draw(gen.choice([None, "record-length", 32768, None])), filter=draw(gen.choice([[0.8, 15.0], [None, None], [None, None], [0.8, 15.0]])),
